@@ -153,6 +153,13 @@ func vc18Modules(maxN int) {
 	for i := range in {
 		in[i] = symX("in")
 	}
+	orig := append([]float64{}, in...)
+	defer func() {
+		// the input vector is the caller's: it must be left as it was, so that activating again gives the same value
+		for i := range in {
+			vAssertEqF(in[i], orig[i], "module activation leaves its input vector unchanged")
+		}
+	}()
 	switch vChoice("module", 3) {
 	case 0:
 		vAssume(vRealModel() || n <= 1) // products of 64-bit floats are out of reach for the bit-exact query
@@ -214,8 +221,14 @@ func VC18_Registry() {
 	} else {
 		vAssert(vAnd(!registered, !isModule), "every registered type code has a name")
 	}
+	// sequences of requests: the answer for a type code does not depend on what was asked before
+	_, _ = NodeActivators.ActivateByType(0.25, nil, LinearActivation)
 	_, aerr := NodeActivators.ActivateByType(0.5, nil, t)
 	vAssert((aerr == nil) == registered, "ActivateByType succeeds exactly for registered scalar types")
+	_, aerr2 := NodeActivators.ActivateByType(0.5, nil, t)
+	vAssert((aerr2 == nil) == registered, "ActivateByType gives the same verdict when the same type is requested again")
+	y1, e1 := NodeActivators.ActivateByType(0.5, nil, LinearActivation)
+	vAssert(e1 == nil && y1 == 0.5, "a registered type still activates correctly after an unknown type was requested")
 	_, merr := NodeActivators.ActivateModuleByType([]float64{0.5}, nil, t)
 	vAssert((merr == nil) == isModule, "ActivateModuleByType succeeds exactly for registered module types")
 	// names: each documented name maps to its type and back; names are pairwise distinct
